@@ -101,10 +101,10 @@ func (s *xscanner) readTextLiteral(buf *bytes.Buffer) {
 
 		if ch == '"' && !escaped {
 			break
-		} else if ch == '\\' {
+		} else if ch == '\\' && !escaped {
 			escaped = true
 		} else {
-			escaped = false
+			escaped = false // including the second backslash of an escaped backslash
 		}
 	}
 }
